@@ -57,7 +57,7 @@ import (
 // scenario description
 
 type fsMsg struct {
-	Kind string // ins | del | dropColl | insPart (insert into partition "p1")
+	Kind string // ins | del | dropColl | insPart (insert into partition "p1") | impPart (bulk-insert message naming _default and "p1")
 	Ms   int64
 	Lg   int64
 }
@@ -218,6 +218,11 @@ func fsBuildLog(c *fsColl, sh *fsShard, seq *int) ([]*msgstream.MsgPack, []*fsSr
 					Base: &commonpb.MsgBase{MsgType: commonpb.MsgType_Delete, Timestamp: ts, MsgID: int64(*seq)}, DbName: "default", CollectionName: c.Name, PartitionName: part,
 					CollectionID: c.ID, PartitionID: partID, ShardName: sh.SrcV, NumRows: 1, Timestamps: []uint64{ts},
 					PrimaryKeys: &schemapb.IDs{IdField: &schemapb.IDs_IntId{IntId: &schemapb.LongArray{Data: []int64{int64(*seq) * 100}}}},
+				}}
+			case "impPart":
+				tm = &msgstream.ImportMsg{BaseMsg: bm, ImportMsg: &msgpb.ImportMsg{
+					Base: &commonpb.MsgBase{MsgType: commonpb.MsgType_Import, Timestamp: ts, MsgID: int64(*seq)}, DbName: "default", CollectionName: c.Name,
+					CollectionID: c.ID, PartitionIDs: []int64{c.ID*10 + 1, c.ID*10 + 2}, JobID: int64(*seq),
 				}}
 			case "dropColl":
 				tm = &msgstream.DropCollectionMsg{BaseMsg: bm, DropCollectionRequest: &msgpb.DropCollectionRequest{
@@ -962,3 +967,6 @@ func (r *fsRun) teardown() {
 	}
 	util.SetVerifPointFunc(func(name, key string) {})
 }
+
+// fsNeedsP1: the message names partition "p1" (which the downstream of an UnknownPart collection never gets)
+func fsNeedsP1(kind string) bool { return kind == "insPart" || kind == "impPart" }
